@@ -46,6 +46,11 @@ def make_case(tier, seed, index):
         return case
     dts = DYADIC if rng.random() < 0.7 else gen.DTS
     pf = {"dts": dts, "p_targetable": 0.5, "steps": (6, 24), "p_timed": 0.5, "p_offgrid_end": 0.0, "p_junction_init": 0.5}
+    single = index % 16 == 5
+    if single:
+        # one compartment per population, several populations connected by transfers (a purely demographic model): in the saved
+        # state consecutive entries then belong to the same compartment name
+        pf.update({"n_ord": (1, 1), "n_junctions": (0, 0), "p_timed": 0.0, "n_pops": (2, 3), "p_transfer": 1.0, "p_source": 0.0, "n_sinks": (0, 0), "n_aux": (1, 2)})
     if tier == "thorough":
         pf["steps"] = (6, 50)
     spec = gen.gen_spec(rng, pf)
@@ -55,7 +60,7 @@ def make_case(tier, seed, index):
     chain = [k1]
     if rng.random() < 0.4 and n - k1 >= 2:
         chain.append(int(rng.integers(1, n - k1)) if rng.random() < 0.8 else 0)
-    return {"kind": "restart", "spec": spec, "progspec": ps, "chain": chain, "spreadsheet": bool(rng.random() < 0.4)}
+    return {"kind": "restart", "spec": spec, "progspec": ps, "chain": chain, "spreadsheet": bool(rng.random() < 0.4 or single)}
 
 
 def continuous(spec):
